@@ -59,6 +59,16 @@ def all_cases(tier, rng):
                 continue
             for ctor in ("ctor=pem roots=ca1", "ctor=pemdialable roots=ca1"):
                 out.append("tlsseq q%d %s timeout=300 dials=%s" % (k, ctor, ",".join(":".join(st) for st in combo))); k += 1
+    # two transports in one process, same host, a server that honours session tickets across connections: the second dial
+    # is judged on ITS roots / configuration
+    k = 0
+    for tlsmax in ("12", "13"):
+        for c1, c2 in (("ctor1=pem roots1=ca1", "ctor2=pem roots2=ca2"), ("ctor1=pem roots1=ca1", "ctor2=default"),
+                       ("ctor1=pem roots1=ca1", "ctor2=config roots2=ca2 name2=srv.test"), ("ctor1=pem roots1=ca1", "ctor2=config roots2=ca1 name2=other.test"),
+                       ("ctor1=config roots1=ca1 name1=srv.test", "ctor2=pem roots2=ca2"), ("ctor1=pem roots1=ca1", "ctor2=pem roots2=ca1"),
+                       ("ctor1=pemdialable roots1=ca1", "ctor2=pemdialable roots2=ca2")):
+            for rep in range(2):
+                out.append("tlspair w%d %s %s host=pair.test cert=pairvalid tlsmax=%s timeout=400" % (k, c1.replace("srv.test", "pair.test"), c2.replace("srv.test", "pair.test"), tlsmax)); k += 1
     return out
 
 
